@@ -27,5 +27,6 @@ extern "C" void h_image_eq(void) {
         if (ex >= 0 && ex < W && ey >= 0 && ey < H) { IMG_PIX q(vc(ex, ey)); gil::at_c<0>(q) = (typename gil::channel_type<IMG_PIX>::type)(gil::at_c<0>(q) ^ (delta & 1)); vc(ex, ey) = q; } else delta = 0;
         vp_assert((a == c) == ((delta & 1) == 0) && (a != c) == ((delta & 1) != 0), "alg.image_equality_iff_all_pixels_equal");
     }
-    if (W != H) vp_assert(!(a == b) && (a != b), "alg.images_of_different_shape_are_not_equal");
+    // (an image constructed with a zero dimension reports 0x0, so shapes are compared as the images report them)
+    if (a.dimensions() != b.dimensions()) vp_assert(!(a == b) && (a != b), "alg.images_of_different_shape_are_not_equal");
 }
